@@ -502,8 +502,15 @@ def loops_to_comprehensions(repo: Repo) -> int:
                     ok = True
                     while rest and isinstance(rest[0], ast.If) and len(rest) > 1:
                         g0 = rest[0]
-                        if len(g0.body) == 1 and isinstance(g0.body[0], ast.Continue) and not g0.orelse:
-                            ifs.append(ast.UnaryOp(op=ast.Not(), operand=g0.test))
+                        # `if a: continue`, also nested `if a: if b: continue` (= `if a and b: continue`)
+                        tests_: list[ast.expr] = []
+                        gi: ast.stmt = g0
+                        while isinstance(gi, ast.If) and not gi.orelse and len(gi.body) == 1:
+                            tests_.append(gi.test)
+                            gi = gi.body[0]
+                        if tests_ and isinstance(gi, ast.Continue):
+                            ct = tests_[0] if len(tests_) == 1 else ast.BoolOp(op=ast.And(), values=tests_)
+                            ifs.append(ast.UnaryOp(op=ast.Not(), operand=ct))
                             rest = rest[1:]
                         else:
                             ok = False
